@@ -64,6 +64,10 @@ def run(out, drv, info):
                        'a hand-made key file with a plaintext private section is outside "key graphs built by init and add-key" (Lean example in C06.lean)',
                        'CPython, json, cryptography, hashlib — modelled, not verified']
     n_worlds, n_ops = (160, 10) if quick else (1400, 14)
+    changed = sorted(k for k in info.get('extract_notes', {}) if k.startswith(('access.', 'section:06_access')))
+    if changed:      # a guard the model mirrors is no longer in the recognised shape: not a broken tie, but look harder (DESIGN §3.1)
+        n_worlds *= 2
+        out.extra['unrecognised_guards'] = changed
     logs = A.run_worlds(out, drv, 'C06', n_worlds, n_ops, 'c06', 'c06')
     for log in logs:
         summarize(out, log)
